@@ -579,6 +579,51 @@ def r8(ctx, rep):
     rep.borrowed(C01.r6, ctx, "C03.R8", "only plain computes are moved in front of a take")
 
 
+
+def r9(ctx, rep):
+    rep.rule("C03.R9", "a grouped `take 1` becomes a plain DISTINCT only when it has no sort of its own", floor=1)
+    import alpha
+    import guards as _g
+    syn = ctx.syn
+    f = syn.fn("preprocess::distinct", crate="prqlc")
+    A = alpha.Inliner(f)
+    par = _g.parents(f["body"])
+    sites = [n for n in walk(f["body"]) if n.get("k") == "mcall" and n["m"] == "push" and n["a"] and show(n["a"][0]).endswith("SqlTransform::Distinct")]
+    if not sites:
+        raise AnchorMissing("preprocess::distinct: no `push(SqlTransform::Distinct)`")
+    for n in sites:
+        # the sort field bound by the Take pattern of the enclosing arm
+        sortvar, cur, conds = None, n, []
+        while id(cur) in par:
+            q = par[id(cur)]
+            if q.get("k") == "if" and q["c"].get("k") != "let" and (q.get("t") is cur or _g._contains(q.get("t"), cur)):
+                conds.append(q["c"])
+            if q.get("k") == "match":
+                for arm in q["arms"]:
+                    if arm is cur or arm["body"] is cur or _g._contains(arm["body"], cur):
+                        for x in walk(arm["pat"]):
+                            if x.get("k") == "p_struct" and last_seg(x["p"]) == "Take":
+                                for fld in x["f"]:
+                                    if fld[0] == "sort":
+                                        ids = [y["n"] for y in walk(fld[1])] if len(fld) > 1 and isinstance(fld[1], dict) else []
+                                        sortvar = next((y for y in ids if y), "sort")
+            cur = q
+        conjuncts = []
+
+        def flat(c):
+            while c.get("k") == "paren":
+                c = c["e"]
+            if c.get("k") == "bin" and c["op"] == "&&":
+                flat(c["lhs"])
+                flat(c["rhs"])
+            else:
+                conjuncts.append(A.show(c, strip=True).replace(" ", ""))
+        for c in conds:
+            flat(c)
+        ok = sortvar is not None and any(t in (f"{sortvar}.is_empty()", f"({sortvar}.is_empty())") for t in conjuncts)
+        rep.check(ok, "distinct-needs-no-sort", f"preprocess::distinct turns `group g (take 1)` into SELECT DISTINCT under {conjuncts}: this must include `{sortvar or 'sort'}.is_empty()`. With a sort inside the group "
+                  "the take picks a particular row per group (`group {g} (sort {-a} | take 1)`), which DISTINCT over the final columns does not", file=f["file"], line=n["l"], fn=f["path"])
+
 def run(ctx, rep):
-    for r in (r1_r2, r3, r4, r5, r6, r7, r8):
+    for r in (r1_r2, r3, r4, r5, r6, r7, r8, r9):
         rep.guard(r, ctx)
